@@ -688,6 +688,9 @@ class StmtMixin:
         if isinstance(coll.ty, T.ListT) and ls.it is not None:
             yield from self.for_indexed(s, idx, ls, V(T.PY, ("seq", coll)), st)
             return
+        if hasattr(coll.ty, "py_suffix_iter"):
+            yield from self.for_suffix(s, idx, ls, coll, st)
+            return
         ety, member, unique = self.iter_view(coll, st, s)
         # the element actually bound may be derived (dict.items(): (k, d[k]))
         derive = getattr(coll, "derive", None)
@@ -848,6 +851,38 @@ class StmtMixin:
         if not hasattr(self, "_char_at"):
             self._char_at = z3.Function("char_at", z3.StringSort(), z3.IntSort(), z3.StringSort())
         return self._char_at(text, i)
+
+    def for_suffix(self, s, idx, ls, coll, st):
+        """iteration over an algebraic cons-list: the invariant speaks about the remaining suffix `rest`"""
+        ty = coll.ty
+        rest_name = ls.it or f"__rest{idx}"
+        lty, is_nil, head_of, tail_of, elem_of = ty.py_suffix_iter(self, coll)
+        start = ty.py_suffix_start(coll) if hasattr(ty, "py_suffix_start") else coll.z
+        entry = st
+        self.check_inv(ls, idx, st, {rest_name: V(lty, start)}, "inv-init", s, entry)
+        names, heap, ghost = self.loop_modifies(s, st)
+        hd = self.havoc_loop(st, names, heap, ghost, s)
+        rest = lty.fresh(rest_name)
+        hd = hd.set_var(rest_name, V(lty, rest))
+        hd = self.assume_inv(ls, hd, {})
+        body_st = hd.assume(z3.Not(is_nil(rest)))
+        if self.feasible(body_st, z3.BoolVal(True)):
+            sink = []
+            for b in self.assign(s.target, elem_of(self, head_of(rest), body_st), body_st, sink):
+                for o in self.exec_block(s.body, b):
+                    if o.kind in ("next", "continue"):
+                        self.check_inv(ls, idx, o.st, {rest_name: V(lty, tail_of(rest))}, "inv-preserve", s, entry)
+                    elif o.kind == "break":
+                        yield Outcome("next", self.drop_loop_names(o.st, rest_name))
+                    else:
+                        yield o
+            yield from self._flush(sink)
+        ex = self.drop_loop_names(hd.assume(is_nil(rest)), rest_name)
+        ex = self.unbind(ex, self._target_names(s.target))
+        if s.orelse:
+            yield from self.exec_block(s.orelse, ex)
+        else:
+            yield Outcome("next", ex)
 
     def ex_While(self, s, st):
         idx, ls = self.loop_spec(s)
